@@ -111,6 +111,44 @@ def lowerInt : Kind → List Char → Lowered
       match parts.2 with
       | none => .ok base
       | some e =>
+        -- `0eN` is 0 whatever `N` is, even when `10^N` itself does not fit
+        if base = 0 then .ok 0 else
+        match fromStrRadix 10 U32 e with
+        | none => .outOfRange
+        | some e =>
+          match checkedPow10 e with
+          | none => .outOfRange
+          | some p =>
+            match checkedMul base p with
+            | none => .outOfRange
+            | some r => .ok r
+  | .hex, text =>
+    match stripPrefix ['0', 'x'] text with
+    | none => .panic
+    | some value =>
+      match fromStrRadix 16 U64 value with
+      | some v => .ok v
+      | none => .outOfRange
+  | .bin, text =>
+    match stripPrefix ['0', 'b'] text with
+    | none => .panic
+    | some value =>
+      match fromStrRadix 2 U64 value with
+      | some v => .ok v
+      | none => .outOfRange
+
+/-- `lower_int_literal` as it was at the pin (before fix: the `0eN` repair): the power is computed,
+checked, before it is multiplied by the mantissa -/
+def lowerIntOld : Kind → List Char → Lowered
+  | .dec, text =>
+    let value := text.filter (· ≠ '_')
+    let parts := splitE value
+    match fromStrRadix 10 U64 parts.1 with
+    | none => .outOfRange
+    | some base =>
+      match parts.2 with
+      | none => .ok base
+      | some e =>
         match fromStrRadix 10 U32 e with
         | none => .outOfRange
         | some e =>
@@ -197,7 +235,7 @@ def value : Spelling → Nat
   | .bin ds => positional 2 (ds.map digitVal)
 
 /-- The one family of spellings whose value fits but which the checked arithmetic of the
-lowering refuses: mantissa zero with an exponent ≥ 20 (`0e20`): `10^e` overflows before it is
+lowering REFUSED AT THE PIN (`lowerIntOld`): mantissa zero with an exponent ≥ 20 (`0e20`): `10^e` overflows before it is
 multiplied by 0. -/
 def Spelling.zeroTimesHugePower : Spelling → Bool
   | .dec m (some (_, x)) => positional 10 (decDigits m) = 0 && 20 ≤ positional 10 (decDigits x)
